@@ -3,9 +3,10 @@ import QuicModel.Drivers.KeySet
 import QuicModel.Drivers.PacketNumber
 import QuicModel.Drivers.PnMap
 import QuicModel.Drivers.SlidingWindow
+import QuicModel.Drivers.TransportParams
 import QuicModel.Drivers.TxPn
 import QuicModel.Drivers.VarInt
 namespace Quic.Drivers
 def all : List Component :=
-  DcReplay.components ++ KeySet.components ++ PacketNumber.components ++ PnMap.components ++ SlidingWindow.components ++ TxPn.components ++ VarInt.components
+  DcReplay.components ++ KeySet.components ++ PacketNumber.components ++ PnMap.components ++ SlidingWindow.components ++ TransportParams.components ++ TxPn.components ++ VarInt.components
 end Quic.Drivers
